@@ -4,7 +4,11 @@
 (* residue names with different content, build files with templates and volumes).  Events, in the order the     *)
 (* code performs the steps of Templates.tla:                                                                     *)
 (*   "V" end of a [ volumes ] section (one line), "T" end of a [ template ] section, "F" end of the build file,  *)
-(*   "G" GenerateTemplates.run_molecule of the next molecule.                                                    *)
+(*   "G" GenerateTemplates.run_molecule of the next molecule,                                                    *)
+(*   "E" end of the run: for every residue of every molecule the version of the template its OWN molecule holds   *)
+(*       under the residue's key (0 = the user's coordinates, n = the n-th distinct generated coordinate set seen  *)
+(*       for that key over the molecules) and whether a computed size equals the size of that very template.      *)
+(* A run without any build file (tr.nobld) has no "F" event: nothing is attached to the molecules before "G".     *)
 (* Every event carries the projected tables after the step (sizes by residue name / hash with their source,     *)
 (* templates by hash with their source), the (hash, residue type) pairs observed so far and, for "G", the hash   *)
 (* of every residue and one record per generated template with the booleans of the numeric monitor, which the    *)
@@ -32,9 +36,9 @@ EntryOf(types, b) == IF b.e = "T" THEN [e |-> "T", k |-> RepIn(types, b.t), rn |
 TInit == /\ tid \in 1..Len(Traces) /\ l = 1
          /\ sys = [m \in 1..Len(Traces[tid].sys) |-> [i \in 1..Len(Traces[tid].sys[m]) |-> RepIn(Traces[tid].types, Traces[tid].sys[m][i])]]
          /\ bld = [i \in 1..Len(Traces[tid].bld) |-> EntryOf(Traces[tid].types, Traces[tid].bld[i])]
-         /\ pc = [phase |-> IF Len(Traces[tid].bld) = 0 THEN "finalize" ELSE "parse", i |-> 1]
-         /\ vols = [s \in Slots |-> NoVal] /\ tmpl = [k \in Keys |-> NoTmpl] /\ r2h = [rn \in Resnames |-> {}]
-         /\ tag = [nd \in NodesOf(Traces[tid].sys) |-> "none"]
+         /\ nobld = Traces[tid].nobld
+         /\ pc = StartPc(Traces[tid].sys, Traces[tid].bld, Traces[tid].nobld)
+         /\ InitTables(Traces[tid].sys)
 
 \* ---- binding of the observed tables (keyed by hash / residue name) to the tables of the specification (keyed by representative)
 HMap == { <<p[1], p[2]>> : p \in ToSet(Ev.hmap) }
@@ -69,9 +73,17 @@ TG == /\ Ev.op = "G" /\ Gen
       /\ { g.hash : g \in GenRecs } = UNION { HashesOf(k) : k \in { k2 \in TrKeys : tmpl[k2].src # "generated" /\ tmpl'[k2].src = "generated" } }
       /\ \A g \in GenRecs : MonitorOK(g)
       /\ Keep
-TNext == l <= Len(Tr.events) /\ (TV \/ TT \/ TF \/ TG)
+\* the end of the run: every residue is backed, in its own molecule, by the version of the template the specification says
+\* (one template per key in the whole system: OneTemplatePerKey), and a computed size is the size of that template (SizeBelongs)
+TE == /\ Ev.op = "E" /\ pc.phase = "done"
+      /\ Len(Ev.held) = Len(sys) /\ Len(Ev.sizeok) = Len(sys)
+      /\ \A m \in 1..Len(sys) :
+           /\ Len(Ev.held[m]) = Len(sys[m]) /\ Len(Ev.sizeok[m]) = Len(sys[m])
+           /\ \A i \in 1..Len(sys[m]) : Ev.held[m][i] = held[m][tag[<<m, i>>]] /\ Ev.sizeok[m][i]
+      /\ UNCHANGED vars /\ Keep
+TNext == l <= Len(Tr.events) /\ (TV \/ TT \/ TF \/ TG \/ TE)
 TSpec == TInit /\ [][TNext]_<<vars, tid, l>>
-Mark == (l = Len(Tr.events) + 1 /\ pc.phase = "done") => TLCSet(1, TLCGet(1) \cup {tid})
+Mark == (l = Len(Tr.events) + 1 /\ pc.phase = "done" /\ Tr.events[Len(Tr.events)].op = "E") => TLCSet(1, TLCGet(1) \cup {tid})
 Prog == TLCSet(2, [TLCGet(2) EXCEPT ![tid] = IF @ < l - 1 THEN l - 1 ELSE @])
 \* sampled evaluations of construct_vs: equal to the independent GROMACS formula and equivariant under a random rigid motion
 BadVS == { i \in 1..Len(Doc.vs) : ~(Doc.vs[i].matches_gmx /\ Doc.vs[i].equivariant) }
